@@ -321,7 +321,7 @@ def allowed_growth(doc: Optional[P.Doc], before: Dict[str, Any], after: Dict[str
                 return (f"{tab} cache entry {k!r} was modified after it had been loaded", v, after[tab][k])
     new_c = set(after["cmaps"]) - set(before["cmaps"])
     new_u = set(after["umaps"]) - set(before["umaps"])
-    ok_c = set(extra_names)
+    ok_c = set(extra_names[:1])
     ok_u: set = set()
     names: set = set(extra_names)
     if doc is not None:
@@ -583,7 +583,7 @@ class Exec:
                     else:
                         hd.close()
             elif kind == "cmapparse":
-                extra = (op[1],)
+                extra = (op[1], "CIDInit", "ProcSet", "CMapName", "Mine")
                 self.cmapparse(idx, op[1], tags)
         except Exception as e:  # noqa: BLE001
             import traceback
@@ -774,6 +774,8 @@ def replay(ctx: C.Ctx, doc, from_corpus: bool = False) -> None:
         if docs[int(k)].data.hex() != hx:
             ctx.notes.append(f"replay: generator output for doc {k} changed; using the stored bytes")
             docs[int(k)].data = bytes.fromhex(hx)
+            docs[int(k)].names = sorted(set(docs[int(k)].names) | set(P.content_names(docs[int(k)].data)))
+            docs[int(k)].overridden = True      # type: ignore[attr-defined]
     las = pool_las(seed, docs)
     used = sorted({op[1] for op in ops if op[0] in ("text", "pages", "tofp", "single")} |
                   {op[3] for op in ops if op[0] == "open"})
